@@ -220,11 +220,15 @@ socket_recv_message (NiceSocket *sock, NiceInputMessage *recv_message)
   local_recv_message.from = recv_message->from;
   local_recv_message.length = 0;
 
-  ret = nice_socket_recv_messages (priv->base_socket, &local_recv_message, 1);
-  if (ret < 0)
-      return ret;
+  /* A frame without payload is complete once its header has been read: do
+   * not issue a zero-length read, which the base socket reports like EOF. */
+  if (local_recv_buf.size > 0) {
+    ret = nice_socket_recv_messages (priv->base_socket, &local_recv_message, 1);
+    if (ret < 0)
+        return ret;
 
-  priv->recv_buf_len += local_recv_message.length;
+    priv->recv_buf_len += local_recv_message.length;
+  }
 
   if (priv->recv_buf_len == priv->expecting_len + padlen) {
     /* FIXME: Eliminate this memcpy(). */
